@@ -11,7 +11,17 @@ package segment
 // ---------------------------------------------------------------------------
 
 //@ -- README: "padded with zero bytes so the next frame starts on an 8-byte boundary"
-//@ predicate padLen_spec(n) = (8 - n % 8) % 8
+//@ -- padLen_readme is that sentence as arithmetic; padLen_spec is the same function in a
+//@ -- form cheaper for bit-vector solvers; lemma pad_spec_equiv proves them equal for n >= 0.
+//@ predicate padLen_readme(n) = (8 - n % 8) % 8
+//@ predicate padLen_spec(n) = (0 - n) & 7
+
+//@ lemma pad_spec_equiv
+//@   props C09 C15
+//@   vars n int
+//@   assume 0 <= n
+//@   prove[C09.pad-spec-equiv] padLen_spec(n) == padLen_readme(n)
+//@   prove[C09.pad-spec-range] 0 <= padLen_spec(n) && padLen_spec(n) <= 7 && (n + padLen_spec(n)) % 8 == 0
 
 //@ func padLen
 //@   props C09 C15
@@ -33,7 +43,7 @@ package segment
 
 //@ func writeFileHeader
 //@   props C09
-//@   assigns buf[0:32]
+//@   assigns buf[0:ite(len(buf) < 32, 0, 32)]
 //@   ensures[C09.header-short] len(buf) < 32 <==> result != nil
 //@   ensures[C09.header-layout] result == nil ==> LE32(buf, 0) == 0x58eb6b0d && buf[4] == 0 && buf[5] == 0 && buf[6] == 0 && buf[7] == 0
 //@      && LE64(buf, 8) == info.BaseIndex && LE64(buf, 16) == info.ID && LE64(buf, 24) == info.Codec
@@ -54,7 +64,7 @@ package segment
 //@ -- README frame header: byte 0 type, bytes 1..3 reserved (zero), bytes 4..7 little-endian length (entry, index) or CRC (commit)
 //@ func writeFrameHeader
 //@   props C09
-//@   assigns buf[0:8]
+//@   assigns buf[0:ite(len(buf) < 8, 0, 8)]
 //@   ensures[C09.fh-short] len(buf) < 8 <==> result != nil
 //@   ensures[C09.fh-layout] result == nil ==> buf[0] == h.typ && buf[1] == 0 && buf[2] == 0 && buf[3] == 0
 //@      && LE32(buf, 4) == ite(h.typ == FrameCommit, h.crc, h.len)
@@ -72,7 +82,7 @@ package segment
 //@ func writeFrame
 //@   props C09 C15
 //@   requires int(h.len) <= len(payload)
-//@   assigns buf[0:8+int(h.len)+padLen_spec(int(h.len))]
+//@   assigns buf[0:ite(len(buf) < 8+int(h.len)+padLen_spec(int(h.len)), 0, 8+int(h.len)+padLen_spec(int(h.len)))]
 //@   ensures[C09.frame-short] result != nil <==> len(buf) < 8 + int(h.len) + padLen_spec(int(h.len))
 //@   ensures[C09.frame-header] result == nil ==> buf[0] == h.typ && buf[1] == 0 && buf[2] == 0 && buf[3] == 0
 //@      && LE32(buf, 4) == ite(h.typ == FrameCommit, h.crc, h.len)
@@ -90,7 +100,7 @@ package segment
 //@ func writeIndexFrame
 //@   props C09
 //@   requires len(offsets) <= 0x3fffffff
-//@   assigns buf[0:8+4*len(offsets)+padLen_spec(4*len(offsets))]
+//@   assigns buf[0:ite(len(buf) < 8+4*len(offsets)+padLen_spec(4*len(offsets)), len(buf), 8+4*len(offsets)+padLen_spec(4*len(offsets)))]
 //@   ensures[C09.index-short] len(offsets) > 0 ==> (result != nil <==> len(buf) < 8 + 4*len(offsets) + padLen_spec(4*len(offsets)))
 //@   ensures[C09.index-empty] len(offsets) == 0 && len(buf) < 8 ==> result != nil
 //@   ensures[C09.index-header] result == nil ==> buf[0] == FrameIndex && buf[1] == 0 && buf[2] == 0 && buf[3] == 0 && LE32(buf, 4) == uint32(4*len(offsets))
@@ -145,12 +155,12 @@ package segment
 //@   ensures[C09.appendframe-padding] zero(w.writer.commitBuf, result0+8+len(data), len(w.writer.commitBuf))
 //@   ensures[C09.appendframe-crc] w.writer.crc == crc(old(w.writer.crc), w.writer.commitBuf, old(len(w.writer.commitBuf)), len(w.writer.commitBuf))
 
-//@ -- Bounds under which uint32 file offsets are exact (segment files are < 4 GiB).
-//@ predicate WFits(w, extra) = uint64(w.writer.writeOffset) + uint64(len(w.writer.commitBuf)) + uint64(extra) <= 0xffffffff
+//@ -- File offsets are uint32 and wrap exactly as in the code; that they do not
+//@ -- wrap for segments below 4 GiB is not claimed here (see DESIGN.md, C15).
 
 //@ func (*Writer).flush
 //@   props C01 C09 C10
-//@   requires w.wf != nil && WFits(w, 0)
+//@   requires w.wf != nil
 //@   assigns w.writer.writeOffset, reslice(w.writer.commitBuf), w.wf.dirty
 //@   ensures result == nil ==> w.writer.writeOffset == old(w.writer.writeOffset) + uint32(old(len(w.writer.commitBuf))) && len(w.writer.commitBuf) == 0
 //@   ensures result != nil ==> w.writer.writeOffset == old(w.writer.writeOffset) && sameslice(w.writer.commitBuf, old(w.writer.commitBuf))
@@ -158,7 +168,7 @@ package segment
 
 //@ func (*Writer).sync
 //@   props C01 C10
-//@   requires w.wf != nil && WFits(w, 0) && w.info.BaseIndex <= 0x7fffffff00000000 && len(av(w.offsets)) <= 0x20000000
+//@   requires w.wf != nil && w.info.BaseIndex <= 0x7fffffff00000000 && len(av(w.offsets)) <= 0x20000000
 //@   assigns w.writer.writeOffset, reslice(w.writer.commitBuf), w.wf.dirty, w.wf.dirLinked, w.commitIdx
 //@   site atomic-store(commitIdx) requires[C01.durable-before-visible] !w.wf.dirty && w.wf.dirLinked
 //@   ensures[C01.sync-ok] result == nil ==> !w.wf.dirty && w.wf.dirLinked
@@ -168,7 +178,7 @@ package segment
 
 //@ func (*Writer).appendCommit
 //@   props C01 C09 C10
-//@   requires w.wf != nil && WFits(w, 8) && w.info.BaseIndex <= 0x7fffffff00000000 && len(av(w.offsets)) <= 0x20000000
+//@   requires w.wf != nil && w.info.BaseIndex <= 0x7fffffff00000000 && len(av(w.offsets)) <= 0x20000000
 //@   assigns w.writer.writeOffset, w.writer.commitBuf, w.writer.crc, w.wf.dirty, w.wf.dirLinked, w.commitIdx, w.writer.commitBuf[len(w.writer.commitBuf):cap(w.writer.commitBuf)]
 //@   ensures[C01.commit-synced] result == nil ==> !w.wf.dirty && w.wf.dirLinked
 //@   ensures result == nil ==> w.writer.crc == 0 && len(w.writer.commitBuf) == 0 && w.writer.writeOffset == old(w.writer.writeOffset) + uint32(old(len(w.writer.commitBuf))) + 8
@@ -178,7 +188,6 @@ package segment
 //@ func (*Writer).appendEntry
 //@   props C05 C09 C10 C15
 //@   requires len(av(w.offsets)) < 0x20000000 && w.info.BaseIndex <= 0x7fffffff00000000
-//@   requires len(e.Data) <= 0xffffffff && WFits(w, len(e.Data) + 15)
 //@   assigns w.writer.commitBuf, w.writer.crc, w.offsets, w.writer.commitBuf[len(w.writer.commitBuf):cap(w.writer.commitBuf)], av(w.offsets)[len(av(w.offsets)):cap(av(w.offsets))]
 //@   ensures[C15.too-big-refused] len(e.Data) > MaxEntrySize ==> result != nil
 //@   ensures[C05.segment-monotone] e.Index != w.info.BaseIndex + uint64(old(len(av(w.offsets)))) ==> result != nil
@@ -194,3 +203,73 @@ package segment
 //@      && eqbytes(w.writer.commitBuf, old(len(w.writer.commitBuf))+8, e.Data, 0, len(e.Data))
 //@      && zero(w.writer.commitBuf, old(len(w.writer.commitBuf))+8+len(e.Data), len(w.writer.commitBuf))
 //@   ensures[C09.entry-crc] result == nil ==> w.writer.crc == crc(old(w.writer.crc), w.writer.commitBuf, old(len(w.writer.commitBuf)), len(w.writer.commitBuf))
+
+//@ func (*Writer).appendIndex
+//@   props C09 C10
+//@   requires len(av(w.offsets)) <= 0x20000000
+//@   assigns w.writer.commitBuf, w.writer.crc, w.writer.indexStart, w.writer.commitBuf[len(w.writer.commitBuf):cap(w.writer.commitBuf)]
+//@   ensures len(av(w.offsets)) > 0 ==> result == nil
+//@   ensures result == nil && len(av(w.offsets)) > 0 ==> len(w.writer.commitBuf) == old(len(w.writer.commitBuf)) + 8 + 4*len(av(w.offsets)) + padLen_spec(4*len(av(w.offsets)))
+//@   ensures result == nil ==> eqbytes(w.writer.commitBuf, 0, old(w.writer.commitBuf), 0, old(len(w.writer.commitBuf)))
+//@   ensures[C09.indexstart] result == nil ==> w.writer.indexStart == uint64(w.writer.writeOffset) + uint64(old(len(w.writer.commitBuf))) + 8
+//@   ensures[C09.index-frame] result == nil && len(av(w.offsets)) > 0 ==> w.writer.commitBuf[old(len(w.writer.commitBuf))] == FrameIndex
+//@      && LE32(w.writer.commitBuf, old(len(w.writer.commitBuf))+4) == uint32(4*len(av(w.offsets)))
+//@      && (forall j int :: 0 <= j && j < len(av(w.offsets)) ==> LE32(w.writer.commitBuf, old(len(w.writer.commitBuf)) + 8 + 4*j) == av(w.offsets)[j])
+//@   ensures[C09.index-crc] result == nil ==> w.writer.crc == crc(old(w.writer.crc), w.writer.commitBuf, old(len(w.writer.commitBuf)), len(w.writer.commitBuf))
+//@   ensures result != nil ==> sameslice(w.writer.commitBuf, old(w.writer.commitBuf)) && w.writer.crc == old(w.writer.crc) && w.writer.indexStart == old(w.writer.indexStart)
+
+//@ func (*Writer).Append
+//@   props C01 C05 C10 C15
+//@   requires WInv(w)
+//@   requires len(av(w.offsets)) + len(entries) <= 0x20000000
+//@   assigns w.writer.commitBuf, w.writer.crc, w.writer.indexStart, w.writer.writeOffset, w.offsets, w.commitIdx, w.wf.dirty, w.wf.dirLinked,
+//@      w.writer.commitBuf[len(w.writer.commitBuf):cap(w.writer.commitBuf)], av(w.offsets)[len(av(w.offsets)):cap(av(w.offsets))]
+//@   ensures[C01.ack-implies-synced] result == nil && len(entries) > 0 ==> !w.wf.dirty && w.wf.dirLinked
+//@   ensures[C05.append-consecutive] result == nil ==> (forall j int :: 0 <= j && j < len(entries) ==> entries[j].Index == w.info.BaseIndex + uint64(old(len(av(w.offsets)))) + uint64(j))
+//@   ensures[C05.append-commitidx] result == nil && len(entries) > 0 ==> w.commitIdx == entries[len(entries)-1].Index && len(av(w.offsets)) == old(len(av(w.offsets))) + len(entries)
+//@   ensures[C10.rollback] result != nil ==> sameslice(w.writer.commitBuf, old(w.writer.commitBuf)) && w.writer.crc == old(w.writer.crc)
+//@      && w.writer.writeOffset == old(w.writer.writeOffset) && w.writer.indexStart == old(w.writer.indexStart)
+//@      && sameslice(av(w.offsets), old(av(w.offsets))) && w.commitIdx == old(w.commitIdx)
+//@   ensures[C10.rollback-content] result != nil ==> unchanged(w.writer.commitBuf, 0, len(w.writer.commitBuf)) && unchanged(av(w.offsets), 0, len(av(w.offsets)))
+//@   ensures[C01.sealed-refuses] old(w.writer.indexStart) > 0 && len(entries) > 0 ==> result == types.ErrSealed
+//@   ensures WInv(w)
+//@   loop 1 invariant -1 <= rangeindex && rangeindex < len(entries)
+//@   loop 1 invariant len(av(w.offsets)) == old(len(av(w.offsets))) + rangeindex + 1
+//@   loop 1 invariant w.writer.crc == crc(0, w.writer.commitBuf, 0, len(w.writer.commitBuf))
+//@   loop 1 invariant forall j int :: 0 <= j && j <= rangeindex ==> entries[j].Index == w.info.BaseIndex + uint64(old(len(av(w.offsets)))) + uint64(j)
+//@   loop 1 invariant unchanged(old(w.writer.commitBuf), 0, old(len(w.writer.commitBuf))) && unchanged(old(av(w.offsets)), 0, old(len(av(w.offsets))))
+//@   loop 1 decreases len(entries) - rangeindex
+
+//@ func (*Writer).ForceSeal
+//@   props C01 C04 C10
+//@   requires WInv(w)
+//@   assigns w.writer.commitBuf, w.writer.crc, w.writer.indexStart, w.writer.writeOffset, w.commitIdx, w.wf.dirty, w.wf.dirLinked,
+//@      w.writer.commitBuf[len(w.writer.commitBuf):cap(w.writer.commitBuf)]
+//@   ensures[C04.forceseal-idempotent] old(w.writer.indexStart) > 0 ==> result1 == nil && result0 == old(w.writer.indexStart) && w.writer.indexStart == old(w.writer.indexStart)
+//@   ensures[C04.forceseal-sealed] result1 == nil && len(av(w.offsets)) > 0 ==> w.writer.indexStart > 0 && result0 == w.writer.indexStart
+//@   ensures[C01.forceseal-synced] result1 == nil && old(w.writer.indexStart) == 0 ==> !w.wf.dirty && w.wf.dirLinked
+//@   ensures[C10.forceseal-commitidx] result1 != nil ==> w.commitIdx == old(w.commitIdx)
+
+//@ func (*Writer).Sealed
+//@   props C01 C03
+//@   ensures result2 == nil && (result0 <==> w.writer.indexStart != 0) && (result0 ==> result1 == w.writer.indexStart) && (!result0 ==> result1 == 0)
+
+//@ func (*Writer).LastIndex
+//@   props C05
+//@   ensures result == w.commitIdx
+
+//@ func (*Writer).OffsetForFrame
+//@   props C05 C11
+//@   requires WInv(w)
+//@   ensures[C05.tail-notfound] (idx < w.info.BaseIndex || idx < w.info.MinIndex || idx > w.commitIdx) ==> result1 == types.ErrNotFound
+//@   ensures[C05.tail-found] !(idx < w.info.BaseIndex || idx < w.info.MinIndex || idx > w.commitIdx) ==> result1 == nil && result0 == av(w.offsets)[int(idx - w.info.BaseIndex)]
+
+//@ func (*Writer).initEmpty
+//@   props C01 C02 C09
+//@   requires w.info.BaseIndex >= 1 && w.info.BaseIndex <= 0x7fffffff00000000 && w.wf != nil
+//@   assigns w.writer.writeOffset, w.writer.commitBuf, w.writer.crc, w.offsets, w.writer.commitBuf[0:cap(w.writer.commitBuf)]
+//@   ensures result == nil
+//@   ensures[C09.init-header] len(w.writer.commitBuf) == 32 && w.writer.writeOffset == 0 && len(av(w.offsets)) == 0
+//@      && LE32(w.writer.commitBuf, 0) == 0x58eb6b0d && w.writer.commitBuf[4] == 0 && w.writer.commitBuf[5] == 0 && w.writer.commitBuf[6] == 0 && w.writer.commitBuf[7] == 0
+//@      && LE64(w.writer.commitBuf, 8) == w.info.BaseIndex && LE64(w.writer.commitBuf, 16) == w.info.ID && LE64(w.writer.commitBuf, 24) == w.info.Codec
+//@   ensures[C09.init-crc] w.writer.crc == crc(0, w.writer.commitBuf, 0, 32)
